@@ -82,8 +82,8 @@ FAMILIES = {
     "C31": ["evloop"],
     "C34": ["evloop"],
     "C14": ["early", "op", "srcfac", "own", "class", "subscribe", "tramp"],
-    "C02": ["own", "class", "subscribe"],
-    "C03": ["own", "class", "subscribe"],
+    "C02": ["own", "class", "subscribe", "compose"],
+    "C03": ["own", "class", "subscribe", "compose"],
     "C43": ["lockset"],
     "C42": ["catchsched"],
     "C09": ["guard"],
@@ -140,6 +140,8 @@ def units_for(prop, tier):
         us.append({"runner": "grouping", "prop": prop, "id": f"grouping-wiring/{prop}"})
     if "scheddisp" in fams:
         us.append({"runner": "scheddisp", "prop": prop, "id": "reactivex/disposable/scheduleddisposable.py::ScheduledDisposable"})
+    if "compose" in fams:
+        us.append({"runner": "compose", "prop": prop, "id": "composition-lemmas/C02-C03"})
     if "toggle" in fams:
         us.append({"runner": "toggle", "prop": prop, "id": "toggle-windows/C18"})
     if "marble" in fams:
